@@ -175,3 +175,68 @@ func runC12NewCells(x *X) {
 		}
 	})
 }
+
+// family "values": the value read back is THE value last set - for values that are deeply equal to the previous one
+// but not identical (two pointers to equal structs, equal strings built separately, 1 vs int64(1), -0.0 vs 0.0, a
+// typed nil pointer vs untyped nil) as for any other.
+func runC12Values(x *X) {
+	type pt struct{ A int }
+	type cand struct {
+		name string
+		v    interface{}
+	}
+	p1, p2 := &pt{1}, &pt{1}
+	var typedNil *pt
+	m1, m2 := &map[string]int{"a": 1}, &map[string]int{"a": 1}
+	cands := []cand{{"ptrA -> {1}", p1}, {"ptrB -> {1} (equal content, different pointer)", p2}, {"int 1", 1}, {"int64 1", int64(1)}, {"+0.0", 0.0}, {"-0.0", negZero()},
+		{"typed nil *pt", typedNil}, {"ptr to map A", m1}, {"ptr to map B (equal content)", m2}, {`"v"`, "v"}, {"struct{1}", pt{1}}}
+	same := func(a, b interface{}) bool {
+		if fa, ok := a.(float64); ok {
+			fb, ok2 := b.(float64)
+			return ok2 && fa == fb && (1/fa > 0) == (1/fb > 0)
+		}
+		return a == b
+	}
+	depth := x.Pick(3, 4)
+	x.Explore("values", ExploreOpts{ShardDepth: 2, Bound: fmt.Sprintf("3 owners (table, column 1, cell) x one key x all sequences of <=%d sets over %d values that are pairwise deeply-equal-but-different (or nil)", depth, len(cands))}, func(c *Chooser) {
+		t := tabular.New()
+		t.AddRowItems("a")
+		cell, _ := t.CellAt(tabular.CellLocation{Row: 1, Column: 1})
+		owners := []struct {
+			name string
+			po   tabular.PropertyOwner
+		}{{"table", t}, {"column 1", t.Column(1)}, {"cell", cell}}
+		o := owners[c.Choose(len(owners))]
+		var last interface{}
+		var ops []string
+		for step := 0; step < depth; step++ {
+			k := c.Choose(len(cands) + 2)
+			if k == 0 {
+				break
+			}
+			x.Transition(1)
+			if k == len(cands)+1 {
+				o.po.SetProperty("key", nil)
+				last = nil
+				ops = append(ops, "set nil")
+			} else {
+				o.po.SetProperty("key", cands[k-1].v)
+				last = cands[k-1].v
+				ops = append(ops, "set "+cands[k-1].name)
+			}
+			c.Logf("%s.SetProperty(key, %s)", o.name, ops[len(ops)-1][4:])
+			got := o.po.GetProperty("key")
+			x.Clause("C12.get_returns_last_set")
+			if !same(got, last) {
+				x.Fail("C12.get_returns_last_set", []string{"values_family", "deeply_equal_but_different_value"}, "%s: after %v GetProperty returns %#v (%T %p), the value last set is %#v (%T %p)", o.name, ops, got, got, got, last, last, last)
+				return
+			}
+		}
+		x.State(fmt.Sprint(o.name, ops))
+		if len(ops) > 1 {
+			x.Nontrivial(fmt.Sprint(o.name, ops))
+		}
+	})
+}
+
+func negZero() float64 { z := 0.0; return -z }
